@@ -124,6 +124,7 @@ def run(chk):
             corpus.append([l.rstrip("\n") for l in open(os.path.join(cdir, f)) if l.strip()])
     for k, c in enumerate(corpus):
         c[0] = "case %d" % (n + k)
+    os.environ.setdefault("VERIF_CASE_TIMEOUT", "30")       # no call of this stream takes a second; one that never returns is cut off here
     res = vlib.run_pair("c02", corpus + cases, timeout=1200)
     dis, crash, ofail = common.judge_pairs(chk, "c02", res, oracle)
     dist = {"setup_accepted": 0, "setup_rejected": 0, "init_ok": 0, "init_failed": 0, "pkt_decoded": 0, "pkt_rejected": 0, "samples_out": 0}
